@@ -13,6 +13,7 @@ CONSTANTS
   ClassSet = {"bnd"}
   AnswerSet = {"terr", "ok", "429", "500", "502", "503", "504", "404", "403", "501"}
   TailSet = {"good"}
+  RetrySet = {"none"}
   FixScanner = FALSE
   FixCursor = TRUE
   Fix5xx = TRUE
